@@ -2,8 +2,9 @@
    Only statements closed by `exact` (proofs in Proofs/BuilderProofs.v, Proofs/InferProofs.v), `_refuted` witnesses
    and non-vacuity Examples by computation.
    Model: Model/Builder.v (astbuilder.ModuleVistor on MiniPy), Model/Infer.v (_annotation_for_value).
-   Spec : Spec/PyBind.v (CPython's bindings on the subset; py_exec = None outside the agreed subset),
-          Spec/C03Rel.v (ns_at, kind_ok, doc_ok, shadow_guard).   `clean` = inspect.cleandoc (oracle). *)
+   Spec : Spec/PyBind.v (CPython's bindings on the subset; py_exec = None outside the agreed subset; py_exec_names /
+          py_exec_strict add the guards of the two known findings), Spec/C03Rel.v (ns_at, kind_ok, doc_ok).
+   `clean` = inspect.cleandoc (oracle).  What an import statement binds is part of the statement (resolved-bases oracle). *)
 From Coq Require Import ZArith NArith List Bool.
 From PydoctorVerif Require Import Base.Sexp Model.MiniPy Model.Infer Model.Builder Spec.PyBind Spec.C03Rel
      Gen.TablesC03 Proofs.InferProofs Proofs.BuilderProofs.
@@ -12,16 +13,16 @@ Import ListNotations.
 Definition idc (t : text) : text := t.
 
 (* ---- names: nothing missing, nothing invented, nothing twice -- in the module and in every class namespace ----
-   For every program of the subset (py_exec accepts it) that passes shadow_guard, and every namespace (c', e') of it:
-   the documented keys are pairwise distinct; every definition Python binds there is documented; every documented
-   name is a definition Python binds there, or -- in a class -- an instance variable (`self.x = ...` in a method; CPython
-   binds those at instantiation only: pydoctor extras by design).
-   _partial: (1) shadow_guard excludes a class variable that shadows an inherited method (C03_names_inherited_shadow_refuted);
-   (2) bindings in else/except/finally suites and untaken ifs, aliases, annotations without value, rebinding a function by a
-   plain assignment are outside the agreed subset (py_exec = None). *)
+   For every program py_exec_names accepts and every namespace (c', e') of it: the documented keys are pairwise distinct;
+   every definition Python binds there is documented; every documented name is a definition Python binds there, or -- in
+   a class -- an instance variable (C03_instance_variables says which).
+   _partial: py_exec_names = py_exec minus class-level assignments that shadow a method or class inherited from a base
+   class (semantic guard: the name is unbound in the class body so far and Python's lookup along the bases finds a
+   function or class first) -- the known finding, C03_names_inherited_shadow_refuted; py_exec = None for bindings in
+   else/except/finally suites and untaken ifs, aliases, annotations without value, rebinding a function by assignment. *)
 Theorem C03_names_agree_partial :
   forall (clean : text -> text) prog e sc c' e',
-    py_exec prog = Some e -> shadow_guard prog = true ->
+    py_exec_names prog = Some e ->
     ns_at (m_contents (doc_walk clean prog)) e sc c' e' ->
     NoDup (keys c') /\
     (forall n, pdef n e' = true -> In n (keys c')) /\
@@ -32,34 +33,63 @@ Proof. exact names_agree. Qed.
 (* at module level the two key sets are equal *)
 Theorem C03_names_agree_module_partial :
   forall (clean : text -> text) prog e,
-    py_exec prog = Some e -> shadow_guard prog = true ->
+    py_exec_names prog = Some e ->
     NoDup (keys (m_contents (doc_walk clean prog))) /\
     forall n, In n (keys (m_contents (doc_walk clean prog))) <-> pdef n e = true.
-Proof. intros clean prog e H1 H2. exact (agree_keys_module clean false _ _ (module_simulation clean prog e H1 H2)). Qed.
+Proof.
+  intros clean prog e H.
+  exact (agree_keys_module clean false _ _
+           (proj1 (module_simulation_gen clean false g_names prog e eq_refl (fun H0 => False_ind _ (Bool.diff_false_true H0)) H))).
+Qed.
 
 (* every class Python binds is documented as a class under that name (so ns_at reaches every class namespace) *)
 Theorem C03_classes_reached_partial :
-  forall (clean : text -> text) prog e sc c' e' n x' d' e2,
-    py_exec prog = Some e -> shadow_guard prog = true ->
-    ns_at (m_contents (doc_walk clean prog)) e sc c' e' -> plookup n e' = Some (VClass x' d' e2) ->
+  forall (clean : text -> text) prog e sc c' e' n x' d' e2 mro ivs,
+    py_exec_names prog = Some e ->
+    ns_at (m_contents (doc_walk clean prog)) e sc c' e' -> plookup n e' = Some (VClass x' d' e2 mro ivs) ->
     exists x d c2 oo ih, lookup n c' = Some (OClass x d c2 oo ih).
 Proof. exact classes_reached. Qed.
+
+(* instance variables, precisely: the instance variables of a class statement are Spec.PyBind.class_ivars of its body --
+   the `self.x = ..` / `self.x: T [= ..]` targets of assignment statements that are statements of a method (a def of the
+   class body, also inside the body of an if/try/with/for/while there, that is not a property), or of the body of an
+   if/try/with/for/while inside the method at any depth; not in else/except/finally suites, not inside nested defs or
+   classes, not under `if __name__ == '__main__':`.  In the class namespace every documented name is a definition Python
+   binds or one of them; and every one of them is documented, unless Python's lookup along the base classes finds a
+   function or class of that name first (_maybeAttribute). *)
+Theorem C03_instance_variables_partial :
+  forall (clean : text -> text) prog e sc c1 e1 n x d c2 oo ih x' d' e2 mro ivs,
+    py_exec_names prog = Some e -> ns_at (m_contents (doc_walk clean prog)) e sc c1 e1 ->
+    lookup n c1 = Some (OClass x d c2 oo ih) -> plookup n e1 = Some (VClass x' d' e2 mro ivs) ->
+    (forall m, In m (keys c2) -> pdef m e2 = true \/ In m ivs) /\
+    (forall m, In m ivs -> pfirst m mro <> Some false -> In m (keys c2)).
+Proof. exact instance_variables. Qed.
+
+(* the ivs field of a class value is class_ivars of the body of the class statement that created it *)
+Theorem C03_class_value_ivars :
+  forall g nm bs cds body sc pinh ivs fr e e',
+    py_stmt g (Class nm bs cds body) sc pinh ivs fr e = Some e' ->
+    exists x d ns mro, plookup nm e' = Some (VClass x d ns mro (class_ivars body)).
+Proof.
+  intros g nm bs cds body sc pinh ivs fr e e' H. cbn in H.
+  destruct (forallb transparent_deco cds); [|discriminate].
+  destruct (bases_info e ivs fr bs) as [[x mro]|]; [|discriminate].
+  match type of H with match ?c with _ => _ end = _ => destruct c as [ns|]; [|discriminate] end. inversion H; subst.
+  exists x, (docstring_of body), ns, mro. rewrite plookup_bind, text_eqb_refl. reflexivity.
+Qed.
 
 (* ---- kinds and docstrings -------------------------------------------------------------------------------------
    kind_ok: FUNCTION at module level / METHOD, CLASS_METHOD, STATIC_METHOD in a class exactly as the (single builtin)
    decorator or the old-style `x = staticmethod(x)` wrapping (also of an already wrapped method: the outer wrapper
    decides) says; is_async = coroutine; PROPERTY for a property object (also when a method assigns `self.p = ..`);
-   a class for a class, and for classes bound at module level EXCEPTION exactly when the class is a subclass of
-   BaseException (through builtin bases -- ExceptionGroup, BaseExceptionGroup, EncodingWarning included -- and
-   module-level bases); a variable kind for anything else.
-   doc_ok: the docstring of a function, property or class is cleandoc of the first-statement string.
-   _partial: for classes nested in classes the CLASS / EXCEPTION distinction is not part of kind_ok (tied by the
-   correspondence check and the oracle only); shadow_guard and the agreed subset as for the names.
-   The three defects that made these statements false before (C03_*_old_refuted below) are repaired in /repo
-   (fbfbc45, 76cecbe, 7fd5e3f): no guard about properties or exception names is left. *)
+   a class for a class, EXCEPTION exactly when the class is a subclass of BaseException -- for classes at ANY nesting
+   depth, through builtin bases, bases of the same module (looked up as Python does) and bases IMPORTED from another
+   module (`from m import Base`, `import m` + `m.Base`; what the import binds comes with the Import statement);
+   class decorators change nothing; a variable kind for anything else.
+   doc_ok: the docstring of a function, property or class is cleandoc of the first-statement string. *)
 Theorem C03_kinds_agree_partial :
   forall (clean : text -> text) prog e sc c' e' n o v,
-    py_exec prog = Some e -> shadow_guard prog = true ->
+    py_exec_names prog = Some e ->
     ns_at (m_contents (doc_walk clean prog)) e sc c' e' ->
     lookup n c' = Some o -> plookup n e' = Some v -> is_aux v = false ->
     kind_ok sc o v.
@@ -67,7 +97,7 @@ Proof. intros. eapply kinds_agree; eauto. Qed.
 
 Theorem C03_docstring_partial :
   forall (clean : text -> text) prog e sc c' e' n o v,
-    py_exec prog = Some e -> shadow_guard prog = true ->
+    py_exec_names prog = Some e ->
     ns_at (m_contents (doc_walk clean prog)) e sc c' e' ->
     lookup n c' = Some o -> plookup n e' = Some v -> is_aux v = false ->
     doc_ok clean o v.
@@ -97,8 +127,8 @@ Theorem C03_docstring_not_after_def :
 Proof. exact string_after_def_ignored. Qed.
 
 Theorem C03_docstring_not_after_class :
-  forall (clean : text -> text) sc flow inh outer nm bs body d s,
-    let s1 := walk_stmt clean (Class nm bs body) sc flow inh outer s in
+  forall (clean : text -> text) sc flow inh outer nm bs cds body d s,
+    let s1 := walk_stmt clean (Class nm bs cds body) sc flow inh outer s in
     walk_stmt clean (ExprStr d) sc flow inh outer s1 = s1.
 Proof. exact string_after_class_ignored. Qed.
 
@@ -123,28 +153,34 @@ Theorem C03_infer_type_sound :
   forall v t, annotation_for_value v = Some t -> denotes t v.
 Proof. exact annotation_for_value_sound. Qed.
 
-(* program level: in the strict subset (py_exec_strict = py_exec minus programs that unpack a tuple into a name holding a
-   literal value -- the exact trigger of the known finding, C03_infer_stale_after_unpacking_refuted), the literal pydoctor
-   remembers for a variable of any namespace (Attribute.value, from which infer_type computes the annotation when the
-   variable has no explicit one) is the literal whose value CPython has bound to that name: last binding wins on both sides.
-   Together with C03_infer_type_sound: the inferred annotation denotes type(value).  Instance variables are excepted
-   (their value is set in methods). *)
+(* program level.  In the strict subset (py_exec_strict = py_exec_names minus programs that unpack a tuple into a name
+   holding a literal value -- the exact trigger of the known finding, C03_infer_stale_after_unpacking_refuted), for a
+   variable of ANY namespace that is not an instance variable and that the program never annotates explicitly:
+   if pydoctor remembers a literal l for it, CPython has bound the name to the value of that same literal (last binding
+   wins on both sides), the annotation pydoctor stores is the one _annotation_for_value infers from l, and it denotes
+   the type of that value. *)
 Theorem C03_infer_type_program_partial :
   forall (clean : text -> text) prog e sc c' e' n k d an l pv,
-    py_exec_strict prog = Some e -> shadow_guard prog = true ->
+    py_exec_strict prog = Some e ->
     ns_at (m_contents (doc_walk clean prog)) e sc c' e' ->
-    lookup n c' = Some (OAttr k d an (Some (AvLit l))) -> k <> KInstanceVar ->
+    lookup n c' = Some (OAttr k d an (Some (AvLit l))) -> k <> KInstanceVar -> ~ In n (prog_ann prog) ->
     plookup n e' = Some (VData pv) ->
-    pv = Some l /\ forall t, annotation_for_value l = Some t -> denotes t l.
+    pv = Some l /\ an = annotation_for_value l /\ forall t, an = Some t -> denotes t l.
 Proof.
-  intros clean prog e sc c' e' n k d an l pv H1 H2 H3 H4 H5 H6. split.
-  - exact (stored_literal_is_bound clean prog e sc c' e' n k d an l pv H1 H2 H3 H4 H5 H6).
-  - intros t Ht. exact (annotation_for_value_sound l t Ht).
+  intros clean prog e sc c' e' n k d an l pv H1 H3 H4 H5 Hn H6.
+  assert (Hn' : py_exec_names prog = Some e).
+  { apply (py_exec_le g_names g_strict); [split; auto|exact H1]. }
+  split; [exact (stored_literal_is_bound clean prog e sc c' e' n k d an l pv H1 H3 H4 H5 H6)|].
+  pose proof (annotation_is_inferred clean prog e sc c' e' n k d an _ Hn' H3 H4 Hn) as Ha. cbn in Ha.
+  split; [exact Ha|]. intros t Ht. subst an. exact (annotation_for_value_sound l t Ht).
 Qed.
 
-(* the strict subset is a subset: same bindings *)
-Theorem C03_strict_subset : forall prog e, py_exec_strict prog = Some e -> py_exec prog = Some e.
-Proof. exact py_exec_strict_lax. Qed.
+(* the guards only remove programs: same bindings *)
+Theorem C03_strict_subset : forall prog e, py_exec_strict prog = Some e -> py_exec_names prog = Some e.
+Proof. intros prog e. apply (py_exec_le g_names g_strict). split; auto. Qed.
+
+Theorem C03_names_subset : forall prog e, py_exec_names prog = Some e -> py_exec prog = Some e.
+Proof. intros prog e. apply (py_exec_le (mkGuards false false) g_names). split; intro; discriminate. Qed.
 
 (* a subscript is produced for non-empty containers only: empty containers give the bare name *)
 Theorem C03_infer_type_empty_bare :
@@ -161,24 +197,34 @@ Proof. repeat split; reflexivity. Qed.
 
 (* ---- witnesses ---------------------------------------------------------------------------------------------------- *)
 Definition nA : name := [65]%N.   Definition nB : name := [66]%N.   Definition nC : name := [67]%N.
-Definition nG : name := [71]%N.   Definition nf : name := [102]%N.  Definition ng : name := [103]%N.
-Definition np : name := [112]%N.  Definition nx : name := [120]%N.  Definition ny : name := [121]%N.
+Definition nD : name := [68]%N.   Definition nG : name := [71]%N.   Definition nf : name := [102]%N.
+Definition ng : name := [103]%N.  Definition nm_ : name := [109]%N. Definition np : name := [112]%N.
+Definition nx : name := [120]%N.  Definition ny : name := [121]%N.
 Definition n_init : name := [95;95;105;110;105;116;95;95]%N.
 Definition n_ValueError : name := [86;97;108;117;101;69;114;114;111;114]%N.
 Definition n_ExceptionGroup : name := [69;120;99;101;112;116;105;111;110;71;114;111;117;112]%N.
 
-(* class A: def f(self): pass     class B(A): f = None *)
+(* class A: def f(self): pass     class B(A): f = None   -- the known finding: B.f is bound, not documented *)
 Definition w_shadow : list stmt :=
-  [Class nA [] [Def nf [] false []]; Class nB [nA] [Assign [TName nf] (RLit LNone)]].
+  [Class nA [] [] [Def nf [] false []]; Class nB [[nA]] [] [Assign [TName nf] (RLit LNone)]].
 
 Theorem C03_names_inherited_shadow_refuted :
+  py_exec_names w_shadow = None /\
   exists e cB eB, py_exec w_shadow = Some e /\ ns_at (m_contents (doc_walk idc w_shadow)) e ScClass cB eB /\
                   pdef nf eB = true /\ ~ In nf (keys cB).
 Proof.
+  split; [reflexivity|].
   eexists. eexists. eexists. split; [lazy; reflexivity|]. split.
   - eapply ns_class with (n := nB); [apply ns_root|lazy; reflexivity|lazy; reflexivity].
   - split; [reflexivity|]. lazy. tauto.
 Qed.
+
+(* the guard is not a blanket ban: a class variable of a derived class that shadows nothing inherited, or an inherited
+   VARIABLE, is inside py_exec_names *)
+Example C03_shadow_guard_is_tight :
+  exists e, py_exec_names [Class nA [] [] [Def nf [] false []; Assign [TName nx] (RLit (LInt 1))];
+                           Class nB [[nA]] [] [Assign [TName nx] (RLit LNone); Assign [TName ng] (RLit LNone)]] = Some e.
+Proof. eexists. lazy. reflexivity. Qed.
 
 (* ---- the three defects repaired in /repo, as they were (old definitions kept) and as they are now --------------- *)
 (* before fbfbc45 _handlePropertyDef left builder.currentAttr on the property: the next string statement replaced its docstring *)
@@ -189,15 +235,15 @@ Proof. reflexivity. Qed.
 
 (* class C:  @property def p(self): "x"     "y"   -- now: the property keeps the getter's docstring *)
 Definition w_stray : list stmt :=
-  [Class nC [] [Def np [DName [t_property]] false [ExprStr nx]; ExprStr ny]].
+  [Class nC [] [] [Def np [DName [t_property]] false [ExprStr nx]; ExprStr ny]].
 
 Example C03_docstring_property_fixed :
-  exists e cC eC, py_exec w_stray = Some e /\ shadow_guard w_stray = true /\
+  exists e cC eC, py_exec_names w_stray = Some e /\
                   ns_at (m_contents (doc_walk idc w_stray)) e ScClass cC eC /\
                   plookup np eC = Some (VFun false WProp (Some nx)) /\
                   lookup np cC = Some (OAttr KProperty (Some nx) None None).
 Proof.
-  eexists. eexists. eexists. split; [lazy; reflexivity|]. split; [reflexivity|]. split.
+  eexists. eexists. eexists. split; [lazy; reflexivity|]. split.
   - eapply ns_class with (n := nC); [apply ns_root|lazy; reflexivity|lazy; reflexivity].
   - split; reflexivity.
 Qed.
@@ -211,16 +257,16 @@ Proof. repeat eexists. Qed.
 
 (* class C:  @property def p(self): pass     def __init__(self): self.p = 1   -- now inside the subset, p stays a property *)
 Definition w_propself : list stmt :=
-  [Class nC [] [Def np [DName [t_property]] false [];
-                Def n_init [] false [Assign [TSelf np] (RLit (LInt 1))]]].
+  [Class nC [] [] [Def np [DName [t_property]] false [];
+                   Def n_init [] false [Assign [TSelf np] (RLit (LInt 1))]]].
 
 Example C03_kinds_property_self_fixed :
-  exists e cC eC, py_exec w_propself = Some e /\ shadow_guard w_propself = true /\
+  exists e cC eC, py_exec_names w_propself = Some e /\
                   ns_at (m_contents (doc_walk idc w_propself)) e ScClass cC eC /\
                   plookup np eC = Some (VFun false WProp None) /\
                   lookup np cC = Some (OAttr KProperty None None None).
 Proof.
-  eexists. eexists. eexists. split; [lazy; reflexivity|]. split; [reflexivity|]. split.
+  eexists. eexists. eexists. split; [lazy; reflexivity|]. split.
   - eapply ns_class with (n := nC); [apply ns_root|lazy; reflexivity|lazy; reflexivity].
   - split; reflexivity.
 Qed.
@@ -236,21 +282,13 @@ Theorem C03_exception_table_old_refuted :
           new_exceptions = true.
 Proof. vm_compute. reflexivity. Qed.
 
-(* class G(ExceptionGroup): pass   -- now an EXCEPTION, as issubclass(G, BaseException) says *)
-Definition w_excgroup : list stmt := [Class nG [n_ExceptionGroup] []].
-
-Example C03_exception_table_fixed :
-  exists e d c oo ih d' ns, py_exec w_excgroup = Some e /\
-     plookup nG e = Some (VClass true d' ns) /\ lookup nG (m_contents (doc_walk idc w_excgroup)) = Some (OClass true d c oo ih).
-Proof. repeat eexists; lazy; reflexivity. Qed.
-
-(* x = 'a'     x, y = 1, 2  : the type inferred from the first literal is kept *)
+(* x = 'a'     x, y = 1, 2  : the type inferred from the first literal is kept -- the known finding *)
 Definition w_unpack : list stmt :=
   [Assign [TName nx] (RLit (LStr nA)); Assign [TTuple [nx; ny]] (RLit (LTuple [LInt 1; LInt 2]))].
 
 Theorem C03_infer_stale_after_unpacking_refuted :
   py_exec_strict w_unpack = None /\
-  exists e, py_exec w_unpack = Some e /\ plookup nx e = Some (VData None) /\
+  exists e, py_exec_names w_unpack = Some e /\ plookup nx e = Some (VData None) /\
             exists k d v, lookup nx (m_contents (doc_walk idc w_unpack)) = Some (OAttr k d (Some (AName t_str)) v).
 Proof. split; [reflexivity|]. eexists. split; [lazy; reflexivity|]. split; [reflexivity|]. repeat eexists. Qed.
 
@@ -265,20 +303,39 @@ Proof. split; reflexivity. Qed.
 Theorem C03_children_attr_is_body : walks_body = true.
 Proof. reflexivity. Qed.
 
-(* ---- non-vacuity: a program with duplicates, nesting, decorators and old-style wrapping is inside the guards -------- *)
+(* ---- non-vacuity --------------------------------------------------------------------------------------------------- *)
+(* duplicates, nesting, decorators (also on the class), old-style wrapping and re-wrapping, a string after a property,
+   self.p for a property, an exception-group base, a nested exception class whose base is a module-level class, a base
+   imported from another module (as a name and as module.Name), instance variables: all inside the strict subset *)
+Definition n_impB : name := [105;66]%N.    (* iB *)
+Definition n_impm : name := [105;109]%N.   (* im *)
 Definition w_ok : list stmt :=
   [ExprStr nx;
+   Import [(n_impB, IClass true [(nm_, MNonAttr); (ny, MAttr true)]);
+           (n_impm, IModule [(nB, (false, [(nf, MNonAttr)]))])];
    Assign [TName nx] (RLit (LInt 1)); Def nx [] true [ExprStr ny];
-   Class nA [n_ExceptionGroup] [Def nf [DName [t_staticmethod]] false []; Assign [TName nf] (RCall t_classmethod [nf]);
-                                Def ng [] false [Assign [TSelf ny] (RLit (LList []))];
-                                Assign [TName ng] (RCall t_classmethod [ng]);
-                                Class nB [] [Def np [DName [t_property]] false [ExprStr nx]; ExprStr ny;
-                                             Def n_init [] false [Assign [TSelf np] (RLit (LInt 1))]]];
+   Class nG [[n_ValueError]] [] [];
+   Class nA [[n_ExceptionGroup]] [DName [nx]]
+         [Def nf [DName [t_staticmethod]] false []; Assign [TName nf] (RCall t_classmethod [nf]);
+          Def ng [] false [Assign [TSelf ny] (RLit (LList []))];
+          Assign [TName ng] (RCall t_classmethod [ng]);
+          Class nB [[nG]] [] [Def np [DName [t_property]] false [ExprStr nx]; ExprStr ny;
+                              Def n_init [] false [Assign [TSelf np] (RLit (LInt 1)); If TTrue [Assign [TSelf nx] (RLit (LInt 2))] []]]];
+   Class nD [[n_impB]; [n_impm; nB]] [] [Assign [TName ny] (RLit (LInt 1))];
    If TTrue [Try [Def nf [] false []] [] [Other] []] [];
    If TMain [Def ng [] false []] []].
 
+Definition class_keys (o : option obj) : option (bool * list name) :=
+  match o with Some (OClass x _ c _ _) => Some (x, keys c) | _ => None end.
+Definition class_member (o : option obj) (n : name) : option obj :=
+  match o with Some (OClass _ _ c _ _) => lookup n c | _ => None end.
+
 Example C03_hypotheses_satisfiable :
-  exists e, py_exec w_ok = Some e /\ shadow_guard w_ok = true /\
-            keys (m_contents (doc_walk idc w_ok)) = [nx; nA; nf] /\
-            exists d c oo ih, lookup nA (m_contents (doc_walk idc w_ok)) = Some (OClass true d c oo ih) /\ keys c = [nf; ng; ny; nB].
-Proof. eexists. split; [lazy; reflexivity|]. split; [reflexivity|]. split; [reflexivity|]. repeat eexists. Qed.
+  (match py_exec_strict w_ok with Some _ => true | None => false end) = true /\
+  keys (m_contents (doc_walk idc w_ok)) = [nx; nG; nA; nD; nf] /\
+  class_keys (lookup nA (m_contents (doc_walk idc w_ok))) = Some (true, [nf; ng; ny; nB]) /\
+  class_keys (class_member (lookup nA (m_contents (doc_walk idc w_ok))) nB) = Some (true, [np; n_init; nx]) /\
+  class_keys (lookup nD (m_contents (doc_walk idc w_ok))) = Some (true, [ny]) /\
+  class_member (lookup nD (m_contents (doc_walk idc w_ok))) ny
+    = Some (OAttr KInstanceVar None (Some (AName t_int)) (Some (AvLit (LInt 1)))).
+Proof. vm_compute. repeat split. Qed.
